@@ -239,10 +239,15 @@ def c11c(ctx):
     g = wp.cfg
     puts = g.find(lambda x: is_call(x, 'self.tiles_queue.put'))
     ok = len(puts) == 1 and unparse(puts[0][1].args[0]) == 'tiles'
-    brk = g.find_stmts(lambda s: isinstance(s, ast.Break) and isinstance(enclosing(s, (ast.For, ast.While)), ast.While))
-    tr = enclosing(puts[0][1], ast.Try) if puts else None
-    ok = ok and tr is not None and any(isinstance(s, ast.Break) for s in tr.orelse) and \
-        all(inside(g.stmt[b], tr) and any(inside(g.stmt[b], s) for s in tr.orelse) for b in brk)
+    # every path to a normal return completed the put (its non-exception edge) -- except the dry-run return.  Path-sensitive:
+    # a loop flag (`while not queued`) and break/else forms are the same thing here
+    if ok:
+        from ..cfg import entails_any
+        pn = puts[0][0]
+        done = [(pn, d) for d in g.succ[pn] if (pn, d) not in g.exc_edges]
+        dry = lambda at: at.op is None and unparse(at.expr) == 'self.dry_run'
+        seen = g.reachable_ps(0, skip_edges=done, skip=lambda s_, d_, struct, pol: entails_any(struct, pol, [(dry, True)]))
+        ok = g.EXIT not in seen
     ctx.check(ok, 'TileWorkerPool.process:retry-until-queued', 'the retry loop is only left after the tiles were queued (or by SeedInterrupted)', wp,
               fail='process() can return although the tiles were not put into the worker queue')
     sw = ctx.fn(S + ':TileSeedWorker.work_loop')
